@@ -209,7 +209,7 @@ pub fn run(prop: &str, tier: &str, replay: Option<&str>) -> i32 {
             let mut out = Outcome::default();
             if run::replay().is_none() {
                 let mut cmd = std::process::Command::new("cargo");
-                cmd.arg("check").arg("--offline").arg("--locked").arg("--manifest-path").arg("/repo/Cargo.toml").arg("-p").arg(pkg).arg("--no-default-features").arg("--target-dir").arg(root.join("harness/target/cfg")).env("RUSTFLAGS", "").env("CARGO_NET_OFFLINE", "true");
+                cmd.arg("check").arg("--offline").arg("--locked").arg("--manifest-path").arg(repo_root().join("Cargo.toml")).arg("-p").arg(pkg).arg("--no-default-features").arg("--target-dir").arg(root.join("harness/target/cfg")).env("RUSTFLAGS", "").env("CARGO_NET_OFFLINE", "true");
                 if *pkg == "rcgen" {
                     cmd.arg("--lib");
                 }
